@@ -30,6 +30,9 @@ type InputSpec struct {
 	Source  string        `json:"source"`
 	// AllowedObjects: optional allowed_objects filter
 	AllowedObjects []string `json:"allowed_objects,omitempty"`
+	// FileName: file name to write the source under (OpenAPI derives the package
+	// of a cross-file reference from the referred file's name)
+	FileName string `json:"file_name,omitempty"`
 }
 
 // OutputSpec selects what is generated.
@@ -73,6 +76,9 @@ func WriteInputs(dir string, inputs []InputSpec) ([]*codegen.Input, error) {
 			out = append(out, &codegen.Input{JSONSchema: &codegen.JSONSchemaInput{Path: p, Package: in.Package, InputBase: codegen.InputBase{AllowedObjects: in.AllowedObjects}}})
 		case smodel.OpenAPI:
 			p := filepath.Join(dir, fmt.Sprintf("in%02d_%s.openapi.json", i, in.Package))
+			if in.FileName != "" {
+				p = filepath.Join(dir, in.FileName)
+			}
 			if err := os.WriteFile(p, []byte(in.Source), 0o644); err != nil {
 				return nil, err
 			}
